@@ -21,6 +21,7 @@ import (
 	"fmt"
 	"math/big"
 	mrand "math/rand"
+	"strings"
 
 	"elaverif/harness/hx"
 
@@ -39,6 +40,8 @@ func exec(t []string) string {
 		return execRun(t)
 	case "txsig":
 		return execTxsig(t)
+	case "tie":
+		return execTie(t)
 	}
 	panic("harness: unknown op " + t[0])
 }
@@ -136,6 +139,13 @@ func reviewedExempt(variant string, ttype, pver byte) bool {
 func oracle(t []string, out string) *hx.Violation {
 	if out == "panic" {
 		return &hx.Violation{Kind: "panic", Detail: hx.LastPanic()}
+	}
+	if t[0] == "tie" { // the verdict must not depend on the (random) order of addresses with equal code hashes
+		if strings.Contains(out, "|") && (strings.HasPrefix(out, "ok|") || strings.Contains(out, "|ok")) {
+			return &hx.Violation{Kind: "verdict-depends-on-map-order",
+				Detail: "the same transaction is accepted or rejected depending on Go's map iteration order: " + out}
+		}
+		return nil
 	}
 	if out != "ok" {
 		return nil
@@ -546,9 +556,6 @@ func genTxsig(g *hx.Gen, w *world) {
 			}
 			for _, variant := range []string{"tx", "bc"} {
 				scen := 8
-				if variant == "bc" {
-					scen = 3
-				}
 				for sc := 0; sc < scen; sc++ {
 					for rep := 0; rep < g.N(1, 4); rep++ {
 						o := &txOp{Variant: variant, Ttype: tt, Pver: byte(pv), Lock: uint32(r.Intn(1000))}
@@ -557,14 +564,33 @@ func genTxsig(g *hx.Gen, w *world) {
 							code []byte
 							ks   []*keyPair
 							m    int
+							sch  []*big.Int // private scalars of a Schnorr aggregate account
 						}
 						nAcc := 1 + r.Intn(3)
 						var accts []acct
 						used := w.pick(nAcc + 1)
 						for k := 0; k < nAcc; k++ {
-							if r.Chance(70) {
+							switch kind := r.Intn(10); {
+							case kind < 5:
 								accts = append(accts, acct{pfx: 0x21, code: w.stdCode(used[k]), ks: []*keyPair{used[k]}, m: 1})
-							} else {
+							case kind == 5: // the deposit address of a key
+								accts = append(accts, acct{pfx: byte(contract.PrefixDeposit), code: w.stdCode(used[k]), ks: []*keyPair{used[k]}, m: 1})
+							case kind == 6: // a stake (DPoS v2) address: RunPrograms knows no such prefix
+								accts = append(accts, acct{pfx: byte(contract.PrefixDPoSV2), code: w.stdCode(used[k]), ks: []*keyPair{used[k]}, m: 1})
+							case kind == 7: // Schnorr aggregate account of 1..3 members
+								var privs []*big.Int
+								var pubs [][]byte
+								for j, nm := 0, 1+r.Intn(3); j < nm; j++ {
+									d := new(big.Int).SetBytes(r.Bytes(32))
+									d.Mod(d, new(big.Int).Sub(crypto.N, big.NewInt(1)))
+									d.Add(d, big.NewInt(1))
+									privs = append(privs, d)
+									x, y := crypto.Curve.ScalarBaseMult(d.Bytes())
+									pubs = append(pubs, crypto.Marshal(crypto.Curve, x, y))
+								}
+								agg, _ := crypto.AggregatePublickeys(pubs)
+								accts = append(accts, acct{pfx: 0x21, code: append([]byte{0x51, 33}, agg...), sch: privs, m: 1})
+							default:
 								ks := w.pick(2 + r.Intn(2))
 								m := 1 + r.Intn(len(ks))
 								accts = append(accts, acct{pfx: 0x12, code: w.msCode(m, ks, 0xAE), ks: ks, m: m})
@@ -607,7 +633,19 @@ func genTxsig(g *hx.Gen, w *world) {
 						var ps []progIn
 						for k, a := range all {
 							code := a.code
-							signers := shuffle(r, a.ks)[:a.m]
+							if a.sch != nil && !(sc == 1 && k == 0) {
+								mrand.Seed(int64(r.U64() >> 1))
+								sig, err := crypto.AggregateSignatures(a.sch, common.Sha256D(signData))
+								if err != nil {
+									panic("harness: AggregateSignatures")
+								}
+								ps = append(ps, progIn{Code: code, Param: append([]byte{}, sig[:]...)})
+								continue
+							}
+							signers := shuffle(r, a.ks)
+							if len(signers) > a.m {
+								signers = signers[:a.m]
+							}
 							if sc == 1 && k == 0 { // foreign program: another key's script, validly signed by that key
 								fk := newKey(r)
 								code = w.stdCode(fk)
@@ -643,6 +681,61 @@ func genTxsig(g *hx.Gen, w *world) {
 	}
 }
 
+// addresses with EQUAL code hashes: the standard and the deposit address of one key, the standard and
+// the multisig-prefixed address of one script, … spent together, with one program per address (same
+// code, possibly different parameters).  For codes of known kind the verdict must be the same in every
+// tie order; for a multisig-shaped code that IsMultiSig rejects (wrong push marker) it is not.
+func genTies(g *hx.Gen, w *world) {
+	r := g.R
+	for i := 0; i < g.N(40, 400); i++ {
+		o := &txOp{Variant: "tx", Ttype: byte(ctypes.TransferAsset), Pver: 0, Lock: uint32(r.Intn(1000))}
+		o.Attrs = append(o.Attrs, attrIn{Usage: byte(ctypes.Nonce), Data: r.Bytes(8)})
+		var code []byte
+		var ks []*keyPair
+		m := 1
+		kind := r.Intn(4)
+		switch kind {
+		case 0: // standard code under standard + deposit prefixes
+			ks = w.pick(1)
+			code = w.stdCode(ks[0])
+		case 1: // multisig code under multisig + standard/deposit prefixes
+			ks = w.pick(2 + r.Intn(2))
+			m = 1 + r.Intn(len(ks))
+			code = w.msCode(m, ks, 0xAE)
+		case 2: // multisig-shaped code with a wrong push marker: CheckMultiSigSignatures parses it, IsMultiSig does not
+			ks = w.pick(2)
+			m = 1 + r.Intn(2)
+			code = w.msCode(m, ks, 0xAE)
+			code[1] = 0x20
+		default: // standard code under standard + multisig prefix (the multisig side can never verify)
+			ks = w.pick(1)
+			code = w.stdCode(ks[0])
+		}
+		pf := [][]byte{{0x21, 0x1F}, {0x12, 0x21}, {0x21, 0x12}, {0x21, 0x12}}[kind]
+		ch := common.ToCodeHash(code).Bytes()
+		o.Refs = []hashIn{{Pfx: pf[0], Hash: ch}, {Pfx: pf[1], Hash: ch}}
+		tx, _, _ := buildTx(o, nil)
+		data := unsignedOf(tx)
+		signers := shuffle(r, ks)[:m]
+		good := progIn{Code: code, Param: w.sigs(data, signers)}
+		bad := progIn{Code: code, Param: nil}
+		if r.Bool() {
+			bad.Param = w.sigs(tamperData(r, data), signers)
+		}
+		var ps []progIn
+		switch r.Intn(3) {
+		case 0:
+			ps = []progIn{good, good}
+		case 1:
+			ps = []progIn{good, bad}
+		default:
+			ps = []progIn{bad, good}
+		}
+		line := txsigLine(o, ps)
+		g.Emit("tie%s", line[5:])
+	}
+}
+
 func gen(g *hx.Gen) {
 	mrand.Seed(int64(g.Seed))
 	w := &world{r: g.R}
@@ -655,6 +748,7 @@ func gen(g *hx.Gen) {
 	genOdd(g, w)
 	genMulti(g, w)
 	genTxsig(g, w)
+	genTies(g, w)
 }
 
 func main() {
